@@ -241,7 +241,24 @@ def make_pair(name, kind='dict', setstate='records', base='duck', newargs=False,
     elif setstate == 'raises':
         rd['__setstate__'] = _raising_setstate
         td['__setstate__'] = _raising_setstate
-    if newargs:
+    if newargs == 'ex_kwonly':
+        def __new__(cls, *, tag=None):
+            o = object.__new__(cls)
+            o.tag = tag
+            return o
+
+        def __getnewargs_ex__(self):
+            return ((), {'tag': self.tag})      # keyword-only constructor arguments: legal, pickled with NEWOBJ_EX by the standard module
+        import types
+        for d, cname in ((rd, name), (td, 'T' + name)):
+            # (protocols 2 and 3 pickle a reference to cls.__new__ itself: it has to be importable by its qualified name)
+            fn = types.FunctionType(__new__.__code__, __new__.__globals__, '__new__', __new__.__defaults__, __new__.__closure__)
+            fn.__kwdefaults__ = {'tag': None}
+            fn.__qualname__ = cname + '.__new__'
+            fn.__module__ = __name__
+            d['__new__'] = fn
+            d['__getnewargs_ex__'] = __getnewargs_ex__
+    elif newargs:
         def __new__(cls, tag=None):
             o = object.__new__(cls)
             o.tag = tag
@@ -289,6 +306,7 @@ _R10 = make_pair('R10', 'dict', 'none', 'marker')
 _R11 = make_pair('R11', 'slots_std', 'none', 'duck', slots=('sa', '__dict__'))  # no __setstate__, standard (dict|None, slots) state
 _R12 = make_pair('R12', None, None, 'duck', parent=_R0, first_bases=(H0,))      # remote-aware __getstate__ inherited from a NON-first base
 _R13 = make_pair('R13', None, None, 'marker', parent=_R1, first_bases=(H0,))
+_R14 = make_pair('R14', 'dict', 'records', 'duck', newargs='ex_kwonly')
 
 OPTIN_NAMES = list(OPTIN)
 SAFE_OPTIN = ['R0', 'R1', 'R2', 'R3', 'R8', 'R9', 'R12', 'R13']     # dict state + __setstate__: the shapes C15 patches address
@@ -421,6 +439,8 @@ def build(case, twin=False):
                 cls = TWIN[name] if twin else OPTIN[name]
             if name == 'P3':
                 obj = cls(n.get('tag', 0))
+            elif FEATURES.get(name, {}).get('newargs') == 'ex_kwonly':
+                obj = cls(tag=n.get('tag', 7))
             elif name == 'P4' or FEATURES.get(name, {}).get('newargs'):
                 obj = cls(n.get('tag', 7))
             else:
